@@ -976,8 +976,26 @@ def run_history(inp):
     return mol, post, ref
 
 
+# deterministic part of the history stream: every edit that flushes with keep_sssr / keep_components (the caches that survive
+# an edit) and the plain structure edits, on a handful of small molecules, at the default radii and two other parameter tuples —
+# in EVERY run, not sampled
+FIXED_HISTORY_MOLS = ['CCO', 'CC(=O)O', 'Nc1ccccc1', 'C1=CC=CC=C1O', 'c1ccncc1', 'CC(=O)[O-].[Na+]', 'C[N+](C)(C)[O-]',
+                      '[H]C([H])([H])O', 'C[C@H](N)C(=O)O', 'Cl[Pt](Cl)(N)N', 'OC=O.[13CH4]']
+FIXED_HISTORY_EDITS = [[['explicify_hydrogens']], [['implicify_hydrogens']], [['explicify_hydrogens'], ['implicify_hydrogens']],
+                       [['kekule']], [['thiele']], [['kekule'], ['thiele']], [['remove_coordinate_bonds']], [['neutralize']],
+                       [['standardize']], [['canonicalize']], [['clean_stereo']], [['standardize_charges']], [['clean_isotopes']],
+                       [['copy'], ['explicify_hydrogens']], [['delete_atom', 1]], [['delete_bond', 1, 2]],
+                       [['add_atom_bond', 1, 'C', 1]], [['charge', 2, 1]], [['aborted_charge', 1, 1]]]
+FIXED_HISTORY_PARAMS = [[1, 4, 1024, 2, 4], [2, 3, 256, 3, 0], [1, 6, 64, 1, 2]]
+
+
+def fixed_history_cases():
+    return [{'kind': 'history', 'smiles': smi, 'edits': edits, 'params': p}
+            for smi in FIXED_HISTORY_MOLS for edits in FIXED_HISTORY_EDITS for p in FIXED_HISTORY_PARAMS]
+
+
 def history_stream(ctx):
-    cases = history_cases(ctx, 80 if ctx.quick else 300)
+    cases = fixed_history_cases() + history_cases(ctx, 80 if ctx.quick else 300)
     lines, meta = [], []
     for inp in cases:
         try:
